@@ -355,6 +355,15 @@ func failingCase(fault string, k int, queue string) harness.Case {
 					// the TLS handshake itself needs ~2 kB; count from what follows
 					raw.ReadHalf().CloseAfter = 2500 + k
 				}
+			case "restarts":
+				// the first connection breaks after some bytes; the peer is healthy afterwards
+				first := true
+				n3.lis.OnAccept = func(raw *netlib.Conn) {
+					if first {
+						first = false
+						raw.ReadHalf().CloseAfter = 2500 + k
+					}
+				}
 			case "garbles-back":
 				n3.lis.OnAccept = func(raw *netlib.Conn) {
 					go func() {
@@ -382,6 +391,43 @@ func failingCase(fault string, k int, queue string) harness.Case {
 			}
 			settle(5 * time.Second)
 			compare(c, fmt.Sprintf("failing-peer %s k=%d: traffic 1->2", fault, k), w.nodes[2].col.Snapshot(), 1, want, map[string]interface{}{"fault": fault, "k": k})
+			if fault == "restarts" {
+				// the peer came back: what it received is a duplicate-free subsequence of what was
+				// sent, in order, and the second half of the traffic arrived completely
+				got := w.nodes[3].col.Snapshot()
+				idx := -1
+				seen := map[string]bool{}
+				okOrder := true
+				for _, m := range got {
+					if seen[string(m.Data)] {
+						okOrder = false
+					}
+					seen[string(m.Data)] = true
+					j := -1
+					for i, s := range want {
+						if bytes.Equal(s.data, m.Data) {
+							j = i
+						}
+					}
+					if j <= idx {
+						okOrder = false
+					}
+					idx = j
+				}
+				missingTail := 0
+				for _, s := range want[len(want)/2:] {
+					if !seen[string(s.data)] {
+						missingTail++
+					}
+				}
+				rp := map[string]interface{}{"fault": fault, "k": k}
+				if !okOrder {
+					c.Violation("exactly-once-in-order", "c17-restarted-peer-order", fmt.Sprintf("peer restarting after %d bytes: what it received is not a duplicate-free ordered subsequence of what was sent", k), rp)
+				}
+				if missingTail > 0 {
+					c.Violation("reconnect", "c17-no-traffic-after-peer-restart", fmt.Sprintf("peer restarting after %d bytes: %d of the last %d messages, sent long after the peer was back, never arrived", k, missingTail, len(want)-len(want)/2), rp)
+				}
+			}
 			w.close()
 		})
 		c.Add("executions", 1)
@@ -448,6 +494,9 @@ func gen(c *harness.C) []harness.Case {
 	}
 	for k := 0; k <= maxK; k += stepK {
 		cases = append(cases, failingCase("closes-after", k, "default"))
+	}
+	for k := 0; k <= maxK; k += 8 {
+		cases = append(cases, failingCase("restarts", k, "default"))
 	}
 	cases = append(cases, fullQueueCase())
 	return cases
